@@ -213,7 +213,7 @@ func reportC02(r *core.Result, s c02State, m string) {
 			})
 			changed := skeleton(me) != skeleton(min.E)
 			min.E = me
-			if min.Kind == "term" {
+			if min.Kind == "term" || min.Kind == "termK" {
 				mr := minimizeWith(min.R, func(c *tm.Term) bool {
 					x := min
 					x.R = c
@@ -230,8 +230,11 @@ func reportC02(r *core.Result, s c02State, m string) {
 		}
 	}
 	k := clause + "|" + skeleton(min.E) + "~" + min.Kind
+	if nd := nonDefaultStrings(min.E); nd != "" {
+		k = clause + "|" + skeleton(min.E) + "[" + strings.ReplaceAll(nd, " ", "\u2423") + "]~" + min.Kind
+	}
 	switch min.Kind {
-	case "term":
+	case "term", "termK":
 		k += ":" + skeleton(min.R)
 	case "node":
 		k += fmt.Sprint(min.Idx)
@@ -255,10 +258,10 @@ func runC02(c *core.Ctx, r *core.Result) {
 		}
 		return
 	}
-	p := plan{fullDepth: 2, coreDepth: 3}
+	p := plan{fullDepth: 2, coreDepth: 3, strDepth: 2, alphabet: tm.REG}
 	subsetDepth := 1
 	if c.Thorough() {
-		p = plan{fullDepth: 3, coreDepth: 4}
+		p = plan{fullDepth: 3, coreDepth: 4, strDepth: 2, alphabet: tm.REG}
 		subsetDepth = 2
 	}
 	r.Bounds = fmt.Sprintf("e over %s; r over 15 sentinels ∪ nodes(e) ∪ fresh copy ∪ perturbed copies of e; e-histories {K, KK, U(all)>K, U({k})>K for every wire key k, evaluated also AT U(all) and U({k})}, all subsets of wire keys for depth<=%d; r-histories {local, K, through the same U}", p, subsetDepth)
@@ -268,10 +271,18 @@ func runC02(c *core.Ctx, r *core.Result) {
 	eachTerm(c, r, p, func(t *tm.Term) {
 		e0 := t.Build()
 		keys := tm.WireKeys(tm.Encode(e0))
+		// string variants (a slot holds an alphabet string) are explored with
+		// a reduced set of histories and references: what they add is the
+		// dependence of identity on message fidelity
+		variant := nonDefaultStrings(t) != ""
 		hists := []string{"K", "KK", "U:*>K", "atU:*"}
+		if variant {
+			hists = []string{"K", "U:*>K"}
+		}
 		all := strings.Join(keys, ",")
 		realHist := func(h string) string { return strings.Replace(h, "*", all, 1) }
-		if t.Depth() <= subsetDepth && len(keys) <= 6 {
+		if variant {
+		} else if t.Depth() <= subsetDepth && len(keys) <= 6 {
 			tm.Subsets(keys, func(sub []string) {
 				if len(sub) == 0 || len(sub) == len(keys) {
 					return
@@ -292,8 +303,14 @@ func runC02(c *core.Ctx, r *core.Result) {
 			refs = append(refs, pairState{E: t, Kind: "sentinel", Idx: k})
 		}
 		refs = append(refs, pairState{E: t, R: t.Clone(), Kind: "term"})
-		for _, pt := range tm.Perturb(t) {
-			refs = append(refs, pairState{E: t, R: pt, Kind: "term"})
+		if !variant {
+			for _, pt := range tm.Perturb(t) {
+				refs = append(refs, pairState{E: t, R: pt, Kind: "term"})
+			}
+			// references equivalent to the side arguments (mark references …)
+			for _, st := range sideTerms(t) {
+				refs = append(refs, pairState{E: t, R: st, Kind: "term"}, pairState{E: t, R: st, Kind: "termK"})
+			}
 		}
 		for _, h := range hists {
 			rh := []string{"local", "K"}
@@ -372,6 +389,11 @@ func culprit(a, b *tm.Shape) string {
 		}
 	}
 	if a.Text != b.Text || (a.Cause == nil) != (b.Cause == nil) || len(a.Multi) != len(b.Multi) {
+		if a.Cause != nil && a.Text == ": "+a.Cause.Text {
+			// a wrapper whose own message is empty but which still prints
+			// the separator: one class of input whatever its Go type
+			return "<wrapper-printing-only-separator>"
+		}
 		return a.Type
 	}
 	return ""
